@@ -1,7 +1,7 @@
 (* C02 — embed: result = calling outer, which forwards *args/**kwargs to inner. *)
 From Sigtools.Model Require Import Base Bind Roles Algebra.
 From Sigtools.Model Require Import Universe.
-From Sigtools.Proofs Require Import SmallModel Basics Deciders SweepDefs SweepDefs2 Bounded2 MergeNeutral.
+From Sigtools.Proofs Require Import SmallModel Basics Deciders SweepDefs SweepDefs2 Bounded2 MergeNeutral SweepDefs3 Bounded3.
 
 (* every result of embed went through the validating constructor *)
 Theorem C02_wf ss uva uvk r : embed ss uva uvk = Ok r -> validate (params r) = true.
@@ -71,3 +71,14 @@ Theorem C02_neutral i nva nvk sr dr :
                          None UEmpty sr dr; i] true true = Ok r /\ params r = params i.
 Proof. exact (embed_into_bare_stars i nva nvk sr dr). Qed.
 Print Assumptions C02_neutral.
+
+(* Bounded: embed(a, b, c) has the same parameters as embed(embed(a, b), c) for
+   a in U(1,{a,b}), b in U(1,{c,d}), c in U(1,{e,f}), the four flag combinations *)
+Theorem C02_assoc_U1 a b c uva uvk :
+  In a U1ab -> In b U1cd -> In c U1ef ->
+  match embed [mk a; mk b] uva uvk with
+  | Ok ab => res_params_eqb (embed [mk a; mk b; mk c] uva uvk) (embed [ab; mk c] uva uvk) = true
+  | Err _ => exists e, embed [mk a; mk b; mk c] uva uvk = Err e
+  end.
+Proof. exact (embed_assoc_U1 a b c uva uvk). Qed.
+Print Assumptions C02_assoc_U1.
